@@ -601,8 +601,15 @@ class MyPyAstVisitor:
                 if not isinstance(return_stmt.expr, mp_nodes.CallExpr | mp_nodes.MemberExpr):
                     # If the return statement is a conditional expression we parse the "if" and "else" branches
                     if isinstance(return_stmt.expr, mp_nodes.ConditionalExpr):
-                        for conditional_branch in [return_stmt.expr.if_expr, return_stmt.expr.else_expr]:
+                        conditional_branches = [return_stmt.expr.if_expr, return_stmt.expr.else_expr]
+                        while conditional_branches:
+                            conditional_branch = conditional_branches.pop(0)
                             if conditional_branch is None:  # pragma: no cover
+                                continue
+
+                            # A branch can be a conditional expression itself: "a if x else (b if y else c)"
+                            if isinstance(conditional_branch, mp_nodes.ConditionalExpr):
+                                conditional_branches += [conditional_branch.if_expr, conditional_branch.else_expr]
                                 continue
 
                             if not isinstance(conditional_branch, mp_nodes.CallExpr | mp_nodes.MemberExpr):
